@@ -1,4 +1,4 @@
-import RSocketModel.Proofs.Parser
+import RSocketModel.Proofs.C04Lemmas
 /-!
 # C04 — Decoded frames are independent of how the byte stream is chunked
 
@@ -8,16 +8,6 @@ Property theorems only. `parse` is an arbitrary per-frame decoder (`[]` = ignore
 namespace RSocketModel.Parser
 
 variable {β : Type}
-
-theorem feedAll_of_residue (parse : Bytes → List β) (chunks : List Bytes) :
-    ∀ buf, drain parse buf = ([], buf) →
-      feedAll parse buf chunks = drain parse (buf ++ chunks.flatten) := by
-  induction chunks with
-  | nil => intro buf h; simp [feedAll, h]
-  | cons c cs ih =>
-    intro buf _
-    simp only [feedAll, feed, List.flatten_cons]
-    rw [ih _ (drain_residue parse (buf ++ c)), ← List.append_assoc, drain_append parse (buf ++ c)]
 
 /-- **Chunking independence.** Whatever the partition of the received bytes into reads (single
 bytes, splits inside the length prefix, …), the items produced over the whole connection and the
